@@ -7,6 +7,10 @@ HelperWraps(chain) == Len(chain) > 0 /\ chain[Len(chain)] = "V"
 Finger(r) ==
   LET w == [kind |-> r.kind, pc |-> r.pc, p1 |-> r.p1, p2 |-> r.p2] IN
   IF r.gen = "panic" THEN {<<"C13", "generator-panic", r.why, r.id>>}
+  ELSE IF w.kind = "ctxregex" THEN
+       (IF r.gen # "ok" /\ RegexOK(w) THEN {<<"C12", "valid-rejected", "ctxregex-witness", r.id>>}
+        ELSE IF r.gen = "ok" /\ ~RegexOK(w) THEN {<<"C12", "precedence", "ctxregex-not-in-effect", r.id>>}
+        ELSE IF r.gen = "ok" /\ ~r.compiles THEN {<<"C01", "does-not-compile", "witness", r.id>>} ELSE {})
   ELSE IF r.gen # "ok" THEN {<<"C12", "valid-rejected", "wrapErrors-witness", r.id>>}
   ELSE IF ~r.compiles THEN {<<"C01", "does-not-compile", "witness", r.id>>}
   ELSE (IF r.chain1 # ExpectM1(w) THEN {<<"C12", IF w.kind = "helper" /\ HelperWraps(r.chain1) # EffConvW(w) THEN "generated-method-not-using-converter-setting" ELSE "precedence", "wrapErrors-effect-M1", r.id>>} ELSE {})
